@@ -54,6 +54,7 @@ var c01Rules = []c01Rule{
 	{name: "mycat_long", table: "t_mlong", key: "k", db: "db_mycat", numeric: true, shard: `{"db":"db_mycat","table":"t_mlong","type":"mycat_long","key":"k","locations":[2,2],"slices":["slice-0","slice-1"],"databases":["db_mycat_[0-3]"],"partition_count":"4","partition_length":"256"}`},
 	{name: "mycat_murmur", table: "t_mmur", key: "k", db: "db_mycat", numeric: true, shard: `{"db":"db_mycat","table":"t_mmur","type":"mycat_murmur","key":"k","locations":[2,2],"slices":["slice-0","slice-1"],"databases":["db_mycat_0","db_mycat_1","db_mycat_2","db_mycat_3"],"seed":"0","virtual_bucket_times":"160"}`},
 	{name: "mycat_string", table: "t_mstr", key: "k", db: "db_mycat", numeric: true, shard: `{"db":"db_mycat","table":"t_mstr","type":"mycat_string","key":"k","locations":[2,2],"slices":["slice-0","slice-1"],"databases":["db_mycat_[0-3]"],"partition_count":"4","partition_length":"256","hash_slice":"20"}`},
+	{name: "mycat_padding", table: "t_mpad", key: "k", db: "db_mycat", numeric: true, shard: `{"db":"db_mycat","table":"t_mpad","type":"mycat_padding_mod","key":"k","locations":[2,2],"slices":["slice-0","slice-1"],"databases":["db_mycat_[0-3]"],"pad_from":"0","pad_length":"6","mod_begin":"3","mod_end":"6"}`},
 }
 
 var (
@@ -111,6 +112,11 @@ type c01Lit struct {
 	key  interface{}
 	rank int64
 	has  bool // rank defined
+}
+
+// c01LitUse: what a context with literals by kind (c01Ctx.q) remembers of the literals it made
+type c01LitUse struct {
+	ranks []int64
 }
 
 func c01IntLit(v int64) c01Lit {
@@ -179,9 +185,15 @@ type c01Ctx struct {
 	rule    router.Rule
 	colType int // 0 datetime strings, 1 date-only + datetime strings mixed, 2 integer (unix) column
 	pts     []int64
+	// q != nil: the literals are emitted by kind and value (c01lit.go), in every spelling
+	q    *c01QCtx
+	used *c01LitUse
 }
 
 func (c *c01Ctx) mkLit(g *core.Gen) c01Lit {
+	if c.q != nil {
+		return c.mkKindLit(g)
+	}
 	p := core.Pick(g, c.pts)
 	if c.r.dateFmt != "" {
 		t := time.Unix(p, 0).UTC()
@@ -206,6 +218,16 @@ func (c *c01Ctx) mkLit(g *core.Gen) c01Lit {
 }
 
 func (c *c01Ctx) litSexp(l c01Lit) core.Sexp {
+	if c.q != nil {
+		s, err := c01QLit(c.rule, l.sql)
+		if err != nil {
+			panic("c01: " + err.Error())
+		}
+		if l.has {
+			c.used.ranks = append(c.used.ranks, l.rank)
+		}
+		return s
+	}
 	rank := core.A("n")
 	if l.has {
 		rank = core.I(l.rank)
@@ -318,7 +340,7 @@ func genC01(g *core.Gen) {
 		panic(err)
 	}
 	stmts := []string{"select", "update", "delete"}
-	n := g.Scale(6000, 120000)
+	n := g.Scale(4000, 80000)
 	maxDepth := g.Scale(4, 6)
 	for i := 0; i < n; i++ {
 		r := &c01Rules[g.Intn(len(c01Rules))]
@@ -334,6 +356,7 @@ func genC01(g *core.Gen) {
 			c01Meta(rule), cond, ctx.universe())
 		g.Emit(in, "rule="+r.name, "stmt="+stmt, "root="+cond.Head(), fmt.Sprintf("form=%d", form))
 	}
+	genC01Lit(g, rt)
 	genC01Join(g, rt)
 	genC01Start(g)
 }
@@ -479,13 +502,16 @@ func init() {
 	core.Register(&core.Property{
 		ID: "C01",
 		Rule: "random condition trees (depth ≤ 4 quick / 6 thorough; = != < <= > >= on either side, IN/NOT IN, BETWEEN/NOT BETWEEN, AND/OR/parentheses, 16 opaque predicate forms, sharding and other columns) " +
-			"over a boundary-rich literal universe per rule (range edges ±1, first/last second of calendar periods, mid-period, outside the configured span; date-only, datetime and unix spellings) for 14 rule configurations, " +
+			"over a boundary-rich literal universe per rule (range edges ±1, first/last second of calendar periods, mid-period, outside the configured span; date-only, datetime and unix spellings) for 15 rule configurations, " +
 			"rendered as SELECT/UPDATE/DELETE with plain, table-qualified, aliased and schema-qualified spellings; the Lean oracle checks every row value of the universe (placed by the real FindTableIndex) on which the condition may be TRUE; " +
 			"non-trivial = statement accepted and routed; " +
 			"JOIN shapes: two or three tables out of a sharded table and its two linked child tables (one with the parent's key name, one with its own), in any order, with and without aliases, " +
 			"joined by JOIN / INNER / CROSS / STRAIGHT_JOIN / comma / LEFT [OUTER] / RIGHT [OUTER] with ON trees of the same grammar (columns qualified, unqualified, ambiguous, column = column), USING with plain and qualified columns, and WHERE; " +
 			"the oracle enumerates the combined rows (NULL extensions included) of universe values stored in the same sub table; " +
-			"EqualStart lines: the real RangeShard.EqualStart of range / date_year / date_month / date_day rules on period starts ±1 s, every spelling (date, datetime, fractions, malformed), timestamps in five fixed zones, right and wrong indexes",
+			"EqualStart lines: the real RangeShard.EqualStart of range / date_year / date_month / date_day rules on period starts ±1 s, every spelling (date, datetime, fractions, malformed), timestamps in five fixed zones, right and wrong indexes; " +
+			"literal kinds (c01lit.go): the same condition grammar with every literal parsed by the real parser and carried by kind and value — integers in 24 spellings (plain, TRUE/FALSE, quoted, zero-padded, with blanks, sign, fraction, exponent, 0x / x'' / b'' / 0b, decimal 1.0 1.5 1.50, float 1e0, NULL, uint64 and beyond) on integer columns, " +
+			"byte strings (text, digits, numeric spellings, x'…') on string-keyed hash / mycat_string / mycat_murmur tables, date strings and unix times plus unroutable kinds on calendar rules, strings no integer rule reads ('abc', '7x'); " +
+			"placed by the real rule on what the real getShardingCompareValue returns; in SELECT/UPDATE/DELETE and in two fifths of the JOIN lines",
 		Generate:   genC01,
 		Exec:       execC01,
 		Trivial: func(in core.Sexp, out string) bool {
@@ -499,6 +525,7 @@ func init() {
 			"TZ=UTC for the harness process (unix-timestamp keys are interpreted in the proxy's time zone)",
 			"rows are stored where FindTableIndex places their key (C03/C09); the placement functions themselves are checked under C08/C09",
 			"/repo's parser delivers the literals of the generated statements as ValueExpr nodes and the opaque forms as other node types",
+			"what MySQL compares a column with for each literal kind is the Lean specification Model/RouteLit.lean `den` (integer, string with binary collation, DATETIME and unix-time columns); the proxy does not know the column type: literals of the other type family than the column (non-numeric strings against integer columns of text-hashing rules, integers against string / DATETIME columns, strings against unix-time columns) are not generated",
 		},
 	})
 }
